@@ -132,3 +132,59 @@ Definition merge_ok (a b merged : list kv) : bool :=
   forallb (fun k => optv_eqb (assoc k merged)
                       (match assoc k a with Some v => Some v | None => assoc k b end))
           (keys_of a ++ keys_of b ++ keys_of merged).
+
+(** ** Clause 7: the default encoding, read back.  For a set whose values are all strings the
+    encoded form determines the set: items are separated by unescaped ',', key and value by the
+    unescaped '=', and a backslash protects the byte after it. *)
+Fixpoint split_unesc (sep : N) (s cur : bytes) : list bytes :=
+  match s with
+  | [] => [rev cur]
+  | c :: r =>
+      if c =? 92 then
+        match r with
+        | d :: r' => split_unesc sep r' (d :: c :: cur)
+        | [] => [rev (c :: cur)]
+        end
+      else if c =? sep then rev cur :: split_unesc sep r []
+      else split_unesc sep r (c :: cur)
+  end.
+
+Fixpoint unesc (s : bytes) : bytes :=
+  match s with
+  | [] => []
+  | c :: r => if c =? 92 then match r with d :: r' => d :: unesc r' | [] => [] end
+              else c :: unesc r
+  end.
+
+Definition decode_item (it : bytes) : option (bytes * bytes) :=
+  match split_unesc 61 it [] with
+  | [k; v] => Some (unesc k, unesc v)
+  | _ => None
+  end.
+
+Fixpoint all_some {A} (l : list (option A)) : option (list A) :=
+  match l with
+  | [] => Some []
+  | Some x :: r => match all_some r with Some r' => Some (x :: r') | None => None end
+  | None :: _ => None
+  end.
+
+Definition decode_strings (enc : bytes) : option (list (bytes * bytes)) :=
+  match enc with
+  | [] => Some []
+  | _ => all_some (map decode_item (split_unesc 44 enc []))
+  end.
+
+Definition string_binding (x : kv) : option (bytes * bytes) :=
+  match snd x with VStr s => Some (fst x, s) | _ => None end.
+
+Definition EncodingSpec (contents : list kv) (encoded : bytes) : Prop :=
+  forall l, all_some (map string_binding contents) = Some l -> decode_strings encoded = Some l.
+
+Definition strpair_eqb (a b : bytes * bytes) : bool := bytes_eqb (fst a) (fst b) && bytes_eqb (snd a) (snd b).
+
+Definition encoding_ok (contents : list kv) (encoded : bytes) : bool :=
+  match all_some (map string_binding contents) with
+  | Some l => option_eqb (list_eqb strpair_eqb) (decode_strings encoded) (Some l)
+  | None => true
+  end.
